@@ -245,6 +245,16 @@ def do_read(t, r):
         if n == 'sorted': return canon(sorted(t, key=key_json))
     return None
 
+PYNAME = {'setitem': '__setitem__', 'setslice': '__setitem__', 'setslice_step': '__setitem__', 'delitem': '__delitem__', 'delslice': '__delitem__',
+          'delslice_step': '__delitem__', 'iadd': '__iadd__', 'imul': '__imul__', 'ior': '__ior__'}
+FACTS = {}
+
+def notifying(x, c):
+    """is the method one that the class was observed to notify for (fresh introspection) — decides whether a call on a wrapper
+    that is no longer part of the value is the model's `touch`"""
+    table = 'dictNotify' if isinstance(x, dict) else ('arrNotify' if isinstance(x, TrackedArray) else 'listNotify')
+    return PYNAME.get(c['n'], c['n']) in FACTS.get(table, ())
+
 def model_mut(c, target_before):
     """the driver encoding of the call (computed before the call; `sort` needs the outcome permutation)"""
     n = c['n']; m = {'n': n}
@@ -385,7 +395,7 @@ def execute(env, attr, init, prog, created=False, source=None):
                     elif paths:
                         for p in paths: res.model_ops.append({'t': c['t'], 'p': p, 'm': mm})
                         res.snaps.append((len(res.model_ops) - 1, snap(rerr), idx))
-                    elif isinstance(x, TrackedValue) and rerr is None:
+                    elif isinstance(x, TrackedValue) and rerr is None and notifying(x, c):
                         res.model_ops.append({'t': 'touch'}); res.snaps.append((len(res.model_ops) - 1, snap(None), idx))
                 if res.stopped: break
                 continue
@@ -864,6 +874,7 @@ def run_fixed(ctx, env, facts, progs, label):
 
 def run(ctx):
     facts, tables = check_tables(ctx)
+    FACTS.clear(); FACTS.update(facts)
     env = Env()
     read_sweep(ctx, env)
     run_fixed(ctx, env, facts, witness_programs(), 'witness')
@@ -902,6 +913,7 @@ def replay(ctx, data):
     inp = data.get('input') or {}
     if 'program' in inp:
         facts = gen_tracked.introspect()
+        FACTS.clear(); FACTS.update(facts)
         env = Env()
         res = execute(env, inp['attr'], inp['init'], inp['program'], inp.get('created_in_same_session', False))
         ctx.case(['replay', inp['program']], kind='replay')
